@@ -15,7 +15,59 @@ def _call(name, args, ws):
     return out
 
 
+def _ref_patterns(toks, au):
+    """let PAT = E else { .. };   where PAT binds through a reference pattern `&x` (Verus: "ref patterns" unsupported)
+         ->   let PAT' = E else { .. }; let x = *vx_r_x;     with `&x` replaced by `vx_r_x` in PAT'
+    (binding by `&x` IS a copy out of the reference; only for let-else statements, where the pattern is irrefutable afterwards)"""
+    i = 0
+    while i < len(toks):
+        if is_id(toks[i], "let"):
+            # pattern up to '=' at depth 0
+            j, depth, refs = i + 1, 0, []
+            while j < len(toks) and not (depth == 0 and is_p(toks[j], "=")) and not is_p(toks[j], ";"):
+                if toks[j].kind == "p" and toks[j].text in ("(", "[", "{"):
+                    depth += 1
+                elif toks[j].kind == "p" and toks[j].text in (")", "]", "}"):
+                    depth -= 1
+                elif is_p(toks[j], "&") and toks[j + 1].kind == "id" and toks[j + 1].text not in ("mut",) and depth > 0:
+                    refs.append(j)
+                j += 1
+            if refs and j < len(toks) and is_p(toks[j], "="):
+                # find `else {` at depth 0 before the terminating ';'
+                k, depth, else_at = j + 1, 0, None
+                while k < len(toks):
+                    if toks[k].kind == "p" and toks[k].text in ("(", "[", "{"):
+                        depth += 1
+                    elif toks[k].kind == "p" and toks[k].text in (")", "]", "}"):
+                        depth -= 1
+                    elif depth == 0 and is_id(toks[k], "else") and is_p(toks[k + 1], "{"):
+                        else_at = k
+                        break
+                    elif depth == 0 and is_p(toks[k], ";"):
+                        break
+                    k += 1
+                if else_at is not None:
+                    end = match_close(toks, else_at + 1)
+                    if is_p(toks[end + 1], ";"):
+                        names = []
+                        for r in reversed(refs):
+                            nm = toks[r + 1].text
+                            names.append(nm)
+                            toks[r:r + 2] = [Tok("id", "vx_r_" + nm, toks[r].ws)]
+                            end -= 1
+                        tail = []
+                        for nm in reversed(names):
+                            tail += toks_of(f" let {nm} = *vx_r_{nm};")
+                        toks[end + 2:end + 2] = tail
+                        au.note("R", "let-else with a reference pattern `&x` -> bind the reference, then `let x = *r;`")
+                        i = end + 2 + len(tail)
+                        continue
+        i += 1
+    return toks
+
+
 def apply(toks, au, opts):
+    toks = _ref_patterns(list(toks), au)
     out, i, n = [], 0, len(toks)
     while i < n:
         t = toks[i]
